@@ -4,18 +4,18 @@
    (b) enumerating the trees (tlc -dump) that are replayed into the real converter.
 
    SpecEnum:  one state = one tree.  Universe(Profile):
-     wide    one structural element with every slot absent / present (every leaf text) / duplicated
+     wideN/O one structural element (N: n-ary, O: the others) with every slot absent / present (every leaf text) / duplicated
              and every attribute state, alone or followed by a run that may close a radical
      deep1-3 depth 2: one slot of the outer element holds a (narrow) structural element,
              alone or followed by a closing run
-     pairs   two or three narrow top-level elements / runs in sequence
+     pairs / triples   two / three narrow top-level elements / runs in sequence
      symbols every character of the symbol / operator / accent tables as text, operand, attribute
    SpecBuild: a bottom-up tree builder for `tlc -simulate` (deeper, random trees): stk is a stack of
              contents; every content of the stack is checked as a tree of its own.           *)
 EXTENDS Omml
 
 CONSTANTS Profile,          \* "quick" | "thorough"
-          Part,             \* "wide" | "pairs" | "deep1" | "deep2" | "deep3" | "symbols" | "all": part of the universe
+          Part,             \* subset of {"wideN", "wideO", "pairs", "triples", "deep1", "deep2", "deep3", "symbols", "all"}
           MaxStack, MaxLen  \* SpecBuild bounds
 
 VARIABLES tree, stk
@@ -28,12 +28,12 @@ NoVal == [st |-> "noval", v |-> ""]
 Thorough == Profile = "thorough"
 
 (* ---- leaves ---- *)
-Is(ps) == Part \in ps \cup {"all"}
-TextsWide == {<<>>, <<"a">>, <<"(">>, <<")">>, <<"U+03B1">>, <<WS>>, <<"a", ")">>}
-             \cup (IF Thorough THEN {<<"[">>, <<"]">>, <<"{">>, <<"}">>, <<"(", WS>>} ELSE {})
+Is(ps) == (ps \cap Part) # {} \/ "all" \in Part
+TextsWide == {<<>>, <<"a">>, <<"(">>, <<")">>, <<"U+03B1">>, <<WS>>}
+             \cup (IF Thorough THEN {<<"a", ")">>, <<"[">>, <<"]">>, <<"{">>, <<"}">>, <<"(", WS>>} ELSE {})
 TextsNarrow == {<<"(">>, <<")">>} \cup (IF Thorough THEN {<<"a">>} ELSE {})
-Closing == {<<>>, << R(<<"a", ")">>) >>, << R(<<")">>), R(<<")">>) >>}
-           \cup (IF Thorough THEN {<< R(<<"]", ")">>) >>} ELSE {})
+Closing == {<<>>, << R(<<"a", ")">>) >>}
+           \cup (IF Thorough THEN {<< R(<<")">>), R(<<")">>) >>, << R(<<"]", ")">>) >>} ELSE {})
 Closing2 == {<<>>, << R(<<"a", ")">>) >>}
 
 Contents(T) == {<<>>} \cup {<<R(t)>> : t \in T}
@@ -64,12 +64,15 @@ Struct(S, C, chrN, chrA, begs, ends) ==
     \cup {[k |-> "box", kids |-> c] : c \in C}
 
 CW == Contents(TextsWide)
-Wide == IF ~Is({"wide"}) THEN {} ELSE Struct(Slots(CW) \cup DupSlots, CW, ChrNary, ChrAcc, BegSet, EndSet)
+WideAll == IF ~Is({"wideN", "wideO"}) THEN {} ELSE Struct(Slots(CW) \cup DupSlots, CW, ChrNary, ChrAcc, BegSet, EndSet)
+Wide == {n \in WideAll : (n.k = "nary" /\ Is({"wideN"})) \/ (n.k # "nary" /\ Is({"wideO"}))}
 
 CN == Contents(TextsNarrow)
-NarrowAttrN == {NoEl, NoVal, Val("U+2211")}
+NarrowAttrN == {NoEl, Val("U+2211")} \cup (IF Thorough THEN {NoVal} ELSE {})
 NarrowAttrA == {NoEl, Val("U+0303")}
-Narrow == Struct(Slots(CN), CN, NarrowAttrN, NarrowAttrA, {NoEl, NoVal, Val("[")}, {NoEl, Val("]")})
+Narrow == {n \in Struct(Slots(CN), CN, NarrowAttrN, NarrowAttrA,
+                           {NoEl, Val("[")} \cup (IF Thorough THEN {NoVal} ELSE {}),
+                           {NoEl} \cup (IF Thorough THEN {Val("]")} ELSE {})) : Thorough \/ n.k # "sSub"}
 
 \* depth 2: exactly one slot holds a narrow element (thorough: optionally with a run before /
 \* after), the other slots are tiny
@@ -101,8 +104,9 @@ PairSet == {n \in Narrow : n.k \in {"rad", "d", "f"} \cup (IF Thorough THEN {"sS
            \cup (IF Thorough THEN {n \in Narrow : n.k = "nary" /\ n.sup = <<>>} ELSE {})
 Rads == {n \in Narrow : n.k = "rad"}
 Pairs == IF ~Is({"pairs"}) THEN {} ELSE {<<a, b>> : a \in PairSet, b \in PairSet}
-Triples == IF Is({"pairs"})
-           THEN {<<a, b, c>> : a \in Rads, b \in Rads \cup {R(<<"a", ")">>)}, c \in Rads} ELSE {}
+RadsT == IF Thorough THEN Rads ELSE {n \in Rads : n.deg = <<>>}
+Triples == IF Is({"triples"})
+           THEN {<<a, b, c>> : a \in Rads, b \in RadsT \cup {R(<<"a", ")">>)}, c \in RadsT} ELSE {}
 
 \* every character of the symbol table (and of the operator / accent tables) in a run, next to a
 \* letter, as operand and as attribute value
@@ -115,8 +119,8 @@ Symbols == IF ~Is({"symbols"}) THEN {} ELSE
     \cup {<<[k |-> "d", beg |-> Val(a), end |-> Val(a), es |-> << <<R(<<"x">>)>> >>]>> : a \in SymChars}
 
 Universe == Symbols \cup
-    (IF Is({"wide"}) THEN {<<n>> \o c : n \in Wide, c \in Closing}
-                          \cup {<<R(t)>> : t \in TextsWide} \cup {<<>>} ELSE {})
+    {<<n>> \o c : n \in Wide, c \in Closing}
+    \cup (IF Is({"wideO"}) THEN {<<R(t)>> : t \in TextsWide} \cup {<<>>} ELSE {})
     \cup {<<n>> \o c : n \in Deep1 \cup Deep2 \cup Deep3, c \in Closing2}
     \cup {p \o c : p \in Pairs, c \in Closing} \cup {p \o c : p \in Triples, c \in Closing2}
 
